@@ -291,6 +291,9 @@ func (r *run) effectedSetContradictsRights(df *canon.Diff) bool {
 		return false
 	}
 	over := p.GetTotalDPoSV2VoteRights() >= float64(r.k.Params.DPoSV2EffectiveVotes)
+	if os.Getenv("RBK_DEBUG") != "" {
+		fmt.Printf("RBK effected-set: %s rights=%v threshold=%v state=%v directHasIt=%v\n", rest[:i], p.GetTotalDPoSV2VoteRights(), float64(r.k.Params.DPoSV2EffectiveVotes), p.State(), df.B != "<absent>")
+	}
 	directHasIt := df.B != "<absent>"
 	return over != directHasIt
 }
